@@ -635,6 +635,15 @@ SYNTH_STATIC = {
         return;
     }
 }''',
+    '__some_of_call': '''fn __some_of_call(_1: F) -> Option {
+    bb0: {
+        _2 = __call_value(move _1) -> [return: bb1, unwind continue];
+    }
+    bb1: {
+        _0 = Option::<T>::Some(move _2);
+        return;
+    }
+}''',
     '__zip_next': '''fn __zip_next(_1: &mut I) -> Option {
     bb0: {
         _2 = __adapt_inner_next(copy _1) -> [return: bb1, unwind continue];
@@ -1427,6 +1436,14 @@ def model(ex, st, c, args):
     if c in ('std::slice::from_ref', 'core::slice::from_ref', 'std::array::from_ref', 'core::array::from_ref'):
         # a shared one-element view of a value: read-only, so a copy of the element is indistinguishable
         return Ref(st.new_cell(VecV([copy_value(ex.deref1(args[0]))])), [])
+    if c in ('core::bool::<impl bool>::then_some', 'core::bool::<impl bool>::then', 'bool::<impl bool>::then_some', 'bool::<impl bool>::then'):
+        cond = as_bool_term(args[0])
+        t = B([(cond, 'y'), (z3.Not(cond), 'n')])
+        if t == 'n':
+            return none()
+        if c.endswith('then_some'):
+            return some(args[1])
+        return ('BODY', synth_static(ex, '__some_of_call'), [args[1]])
     # ----- std::mem
     if c in ('std::mem::replace', 'core::mem::replace', 'std::mem::take', 'core::mem::take'):
         cell, path = ex.deref_target(args[0])
